@@ -275,6 +275,12 @@ pub proof fn lemma_lower_seq_idem(s: Seq<char>)
     }
 }
 
+// A-validated per char (exhaustive over all scalar values): lower-casing never yields the empty string
+#[verifier::external_body]
+pub proof fn axiom_lower_nonempty(c: char)
+    ensures u_to_lower(c).len() > 0
+{ }
+
 // ---- theory: split.rs ----
 // ---- splitting vocabulary (defined recursively, so the lemmas below are proved, not assumed) ----
 pub open spec fn last_index_of(s: Seq<char>, c: char) -> int decreases s.len()
@@ -2614,6 +2620,45 @@ pub proof fn theorem_checksum_rebuild(x: Seq<char>)
     })
 { }
 
+// ---- C04: the stored checksum text is free of ASCII upper-case letters ----
+#[verifier::external_body] /* proved in group ckfix */
+pub proof fn lemma_lower_seq_len(s: Seq<char>)
+    ensures lower_seq(s).len() >= s.len()
+    decreases s.len()
+{ }
+
+/// a text that lower-casing leaves alone contains no ASCII upper-case letter
+#[verifier::external_body] /* proved in group ckfix */
+pub proof fn lemma_lower_fixed_no_upper(k: Seq<char>)
+    requires lower_seq(k) == k
+    ensures forall|i: int| 0 <= i < k.len() ==> !ascii_upper_c(#[trigger] k[i])
+    decreases k.len()
+{ }
+
+pub open spec fn no_ascii_upper(s: Seq<char>) -> bool { forall|i: int| 0 <= i < s.len() ==> !ascii_upper_c(#[trigger] s[i]) }
+
+#[verifier::external_body] /* proved in group ckfix */
+pub proof fn lemma_no_upper_concat(a: Seq<char>, b: Seq<char>)
+    requires no_ascii_upper(a), no_ascii_upper(b)
+    ensures no_ascii_upper(a + b)
+{ }
+
+#[verifier::external_body] /* proved in group ckfix */
+pub proof fn lemma_listing_text_no_upper(es: VS)
+    requires keys_fixed(es), all_hex_ok(es)
+    ensures no_ascii_upper(listing_text(es))
+    decreases es.len()
+{ }
+
+/// C04 (checksum clause): the text build() stores is the ','-joined listing `algorithm:hex` of entries in strictly ascending
+/// algorithm order, each with an even number of (lower-case) hex digits, and contains no ASCII upper-case letter
+#[verifier::external_body] /* proved in group ckfix */
+pub proof fn theorem_checksum_text_shape(x: Seq<char>)
+    requires ck_parse(x) is Some, ck_text(ck_parse(x)->Some_0) is Some
+    ensures exists|es: VS| #![auto] es.len() > 0 && sorted_by_key(es) && all_hex_ok(es) && is_listing(es, ck_parse(x)->Some_0)
+        && ck_text(ck_parse(x)->Some_0)->Some_0 == listing_text(es) && no_ascii_upper(listing_text(es))
+{ }
+
 // ---- unit theory.c01  <= (contracts):0 ----
 // ---- C01 / C10 for the type-agnostic PURL, as a theorem over the specification functions ----
 // from_str is proved to satisfy parse_post (group parse), Display::fmt to write canon_spec (group fmt), the three built-in
@@ -2943,6 +2988,31 @@ pub proof fn lemma_built_is_handed_out_plain<T: FromStr + PurlShape>(t0: T, p0: 
     lemma_first_build::<T>(t1, p1, fr, g);
 }
 
+/// C04 (checksum clause) for every value build() hands out: the checksum text is the sorted, lower-case, even-hex listing
+pub proof fn theorem_c04_checksum<T: PurlShape>(t1: T, p1: PurlParts, fr: Result<(), T::Error>, g: GenericPurl<T>)
+    requires fr is Ok, wf_seq(p1.qualifiers.qualifiers@), build_post::<T>(t1, p1, fr, Ok::<GenericPurl<T>, T::Error>(g)),
+        has_key(g.parts.qualifiers.qualifiers@, checksum_key()),
+    ensures exists|es: VS| #![auto] es.len() > 0 && sorted_by_key(es) && all_hex_ok(es)
+        && g.parts.qualifiers.qualifiers@[pos_of(g.parts.qualifiers.qualifiers@, checksum_key())].1@ == listing_text(es)
+        && no_ascii_upper(listing_text(es))
+{
+    let q2 = nonempty_part(p1.qualifiers.qualifiers@);
+    let gq = g.parts.qualifiers.qualifiers@;
+    lemma_checksum_key();
+    lemma_nonempty_wf(p1.qualifiers.qualifiers@);
+    lemma_first_build::<T>(t1, p1, fr, g);
+    if has_key(q2, checksum_key()) {
+        let p = pos_of(q2, checksum_key());
+        lemma_has_pair_pos_key(q2, checksum_key());
+        assert(gq[p].0.0@ == checksum_key());
+        lemma_has_pair_pos_key(gq, checksum_key());
+        lemma_sorted_unique(gq, p, pos_of(gq, checksum_key()));
+        theorem_checksum_text_shape(q2[p].1@);
+    } else {
+        assert(gq == q2);
+    }
+}
+
 // ---- unit T.PackageType  <= purl/src/package_type.rs:143 ----
 #[derive(Clone, Copy)]
 pub enum PackageType {
@@ -3059,10 +3129,7 @@ fn finish(&mut self, parts: &mut PurlParts) -> (r: Result<(), Self::Error>)
 // ---- unit theory.pypi_idem  <= (contracts):0 ----
 // ---- C10: the pypi rule is a projection (pypi_norm(pypi_norm(s)) == pypi_norm(s)) ----
 // A-validated per char (exhaustive over all scalar values):
-#[verifier::external_body]
-pub proof fn axiom_lower_nonempty(c: char)
-    ensures u_to_lower(c).len() > 0
-{ }
+// (axiom_lower_nonempty: see base.rs)
 #[verifier::external_body]
 pub proof fn axiom_lower_no_dash(c: char)
     requires !dash(c)
